@@ -10,6 +10,7 @@ import (
 	"errors"
 	"fmt"
 	"strings"
+	"sync"
 
 	"github.com/fxamacker/cbor/v2"
 	"github.com/onflow/atree"
@@ -25,6 +26,7 @@ const (
 // CallbackCtl counts calls of caller-supplied callbacks and can be armed to
 // fail (or panic) at the k-th call of a kind.  A nil *CallbackCtl is inert.
 type CallbackCtl struct {
+	mu     sync.Mutex
 	Count  map[string]int
 	FailAt map[string]int // kind -> 1-based call number that fails (0 = never)
 	Panic  bool           // panic instead of returning the error
@@ -45,6 +47,8 @@ func (c *CallbackCtl) Reset() {
 	if c == nil {
 		return
 	}
+	c.mu.Lock()
+	defer c.mu.Unlock()
 	c.Count = map[string]int{}
 	c.FailAt = map[string]int{}
 	c.Panic = false
@@ -57,10 +61,17 @@ func (c *CallbackCtl) hit(kind string) error {
 	if c.Yield != nil {
 		c.Yield(kind)
 	}
+	c.mu.Lock()
 	c.Count[kind]++
+	fire := false
 	if k := c.FailAt[kind]; k != 0 && c.Count[kind] == k {
 		c.Fired[kind]++
-		if c.Panic {
+		fire = true
+	}
+	doPanic := c.Panic
+	c.mu.Unlock()
+	if fire {
+		if doPanic {
 			panic(injectedPanic{kind})
 		}
 		return ErrInjected
